@@ -476,7 +476,7 @@ impl TExec {
         for i in 0..NP {
             let b = self.sim.query(&self.token.clone(), "balance", (self.p[i].clone(),).into_val(&env));
             let bv = b.val().and_then(|v| i128::try_from_val(&env, &v).ok());
-            if !ctx.check(bv == Some(self.m.bal(i)), &["C12"], "invariant/balance-differs", || {
+            if !ctx.check(bv == Some(self.m.bal(i)), &["C12", "C07"], "invariant/balance-differs", || {
                 format!("balance(p{}) = {:?}, ledger model says {}", i, bv, self.m.bal(i))
             }) {
                 return;
